@@ -190,3 +190,35 @@ Proof.
     split; [constructor | reflexivity].
   - split; [vm_compute; reflexivity|]. split; vm_compute; reflexivity.
 Qed.
+
+(* ---------- tools/gotrans phase 4: bufiox.DefaultWriter (reset, acquireSlow, acquire, Malloc, WriteBinary, WrittenLen, Flush) regenerated from bufiox/defaultbuf.go; for every history the regenerated methods, run on the generated state conc st that a model state st stands for, follow the heap model Model/BufWriter.v step by step (Proofs/GenEquivBufWriter.v): same outputs, same next state; the allocator is the model's new_block for every dirty-memory oracle, Write is the model's sink ---------- *)
+From GV Require Import Lib.GoSem Gen.Funcs Proofs.GenLib Proofs.GenLib3 Proofs.GenLib4 Proofs.GenEquivBufWriter.
+From GV Require Proofs.GenCorollariesBufio.
+
+Theorem C05_gen_malloc :
+  forall (dirty : nat -> bytes) (fuel : nat), (64 < fuel)%nat -> forall (st : wstate) (n : Z), Inv st -> wsmall st -> werr st = None -> 0 <= n < 2 ^ 59 -> exists (st' : wstate) (b : bytes) (d : list N), g_bufiox_DefaultWriter_Malloc sinkst nat (w_bytes dirty) (w_malloc dirty) fuel false (w_buf (conc st)) (w_pend (conc st)) (w_wd (conc st)) (w_err (conc st)) (w_bk (conc st)) (w_bi (conc st)) (w_nc (conc st)) n (Datatypes.length (store st)) = Ok (wret (conc st'), Datatypes.length (store st'), b, None) /\ Inv st' /\ len b = Z.to_N n /\ GenCorollariesBufio.g_L (conc st') = GenCorollariesBufio.g_L (conc st) ++ d /\ len d = Z.to_N n /\ GenCorollariesBufio.g_written_len (conc st') = GenCorollariesBufio.g_written_len (conc st) + n.
+Proof. exact (@GenCorollariesBufio.g_C05_malloc). Qed.
+
+Theorem C05_gen_write_binary :
+  forall (dirty : nat -> bytes) (fuel : nat), (64 < fuel)%nat -> forall (st : wstate) (bs : bytes), Inv st -> wsmall st -> werr st = None -> (len bs < 2 ^ 59)%N -> exists st' : wstate, g_bufiox_DefaultWriter_WriteBinary sinkst nat (w_bytes dirty) (w_malloc dirty) fuel false (w_buf (conc st)) (w_pend (conc st)) (w_wd (conc st)) (w_err (conc st)) (w_bk (conc st)) (w_bi (conc st)) (w_nc (conc st)) bs (Datatypes.length (store st)) = Ok (wret (conc st'), Datatypes.length (store st'), glen bs, None) /\ Inv st' /\ GenCorollariesBufio.g_L (conc st') = GenCorollariesBufio.g_L (conc st) ++ bs /\ GenCorollariesBufio.g_written_len (conc st') = GenCorollariesBufio.g_written_len (conc st) + glen bs.
+Proof. exact (@GenCorollariesBufio.g_C05_write_binary). Qed.
+
+Theorem C05_gen_malloc_negative :
+  forall (dirty : nat -> bytes) (fuel : nat), (64 < fuel)%nat -> forall (st : wstate) (n : Z), werr st = None -> n < 0 -> exists e : gerror, g_bufiox_DefaultWriter_Malloc sinkst nat (w_bytes dirty) (w_malloc dirty) fuel false (w_buf (conc st)) (w_pend (conc st)) (w_wd (conc st)) (w_err (conc st)) (w_bk (conc st)) (w_bi (conc st)) (w_nc (conc st)) n (Datatypes.length (store st)) = Ok (wret (conc st), Datatypes.length (store st), [], e) /\ GenCorollariesBufio.wclass e = E_NEG.
+Proof. exact (@GenCorollariesBufio.g_C05_malloc_negative). Qed.
+
+Theorem C05_gen_error_sticky :
+  forall (dirty : nat -> bytes) (fuel : nat) (st : wstate) (e n : Z) (bs : bytes), werr st = Some e -> g_bufiox_DefaultWriter_Malloc sinkst nat (w_bytes dirty) (w_malloc dirty) fuel false (w_buf (conc st)) (w_pend (conc st)) (w_wd (conc st)) (w_err (conc st)) (w_bk (conc st)) (w_bi (conc st)) (w_nc (conc st)) n (Datatypes.length (store st)) = Ok (wret (conc st), Datatypes.length (store st), [], Some e) /\ g_bufiox_DefaultWriter_WriteBinary sinkst nat (w_bytes dirty) (w_malloc dirty) fuel false (w_buf (conc st)) (w_pend (conc st)) (w_wd (conc st)) (w_err (conc st)) (w_bk (conc st)) (w_bi (conc st)) (w_nc (conc st)) bs (Datatypes.length (store st)) = Ok (wret (conc st), Datatypes.length (store st), 0, Some e) /\ g_bufiox_DefaultWriter_Flush sinkst wd_write nat w_free false (w_buf (conc st)) (w_pend (conc st)) (w_wd (conc st)) (w_err (conc st)) (w_bk (conc st)) (w_bi (conc st)) (w_nc (conc st)) (Datatypes.length (store st)) = Ok (wret (conc st), Datatypes.length (store st), Some e).
+Proof. exact (@GenCorollariesBufio.g_C05_error_sticky). Qed.
+
+Theorem C05_gen_flush :
+  forall st : wstate, Inv st -> wsmall st -> werr st = None -> cur st <> None -> exists (st' : wstate) (e : gerror), g_bufiox_DefaultWriter_Flush sinkst wd_write nat w_free false (w_buf (conc st)) (w_pend (conc st)) (w_wd (conc st)) (w_err (conc st)) (w_bk (conc st)) (w_bi (conc st)) (w_nc (conc st)) (Datatypes.length (store st)) = Ok (wret (conc st'), Datatypes.length (store st'), e) /\ (e = None /\ klog (w_wd (conc st')) = klog (w_wd (conc st)) ++ [GenCorollariesBufio.g_L (conc st)] /\ GenCorollariesBufio.g_written_len (conc st') = 0 /\ w_err (conc st') = None /\ GenCorollariesBufio.g_L (conc st') = [] \/ (exists ev : Z, e = Some ev /\ w_err (conc st') = Some ev /\ klog (w_wd (conc st')) = klog (w_wd (conc st)) /\ GenCorollariesBufio.g_L (conc st') = GenCorollariesBufio.g_L (conc st))).
+Proof. exact (@GenCorollariesBufio.g_C05_flush). Qed.
+
+Theorem C05_gen_follows :
+  forall (dirty : nat -> bytes) (fuel : nat), (64 < fuel)%nat -> forall (h : list wop) (st : wstate) (s : lstate), Sim st s -> GenCorollariesBufio.w_run_ok dirty st h -> GenCorollariesBufio.g_follows dirty fuel st h.
+Proof. exact (@GenCorollariesBufio.g_C05_follows). Qed.
+
+Theorem C05_gen_writer_follows_model :
+  forall (dirty : nat -> bytes) (fuel : nat), (64 < fuel)%nat -> forall (w0 : wstate) (l0 : lstate) (h : list wop), init_pair w0 l0 -> GenCorollariesBufio.w_run_ok dirty w0 h -> GenCorollariesBufio.g_follows dirty fuel w0 h.
+Proof. exact (@GenCorollariesBufio.g_C05_writer_follows_model). Qed.
